@@ -249,15 +249,17 @@ def check_copy(acc: core.Acc, case: dict, label: str, orig, make_copy) -> None:
                 acc.fail('copy_bound_to_wrong_map', dict(case, obj=label),
                          f'{case} {label}: copy{path} ({type(o).__name__}) belongs to the {"source" if cross else "other"} map', obj=kind)
                 break
-        if not cross and not case.get('preserve_ids'):
-            # (in a map parsed with preserve_ids=True the ID managers return requested IDs unchanged: which IDs a copy gets
-            # there is exempt by definition - property C08 - so nothing is demanded)
+        pres = bool(case.get('preserve_ids'))
+        if not cross:
             def ids_of(reach):
                 out = set()
                 for _, (_p, o) in reach.items():
-                    if isinstance(o, (Entity, Solid, Side, VisGroup, EntityGroup)):
+                    # (in a map parsed with preserve_ids=True a REQUESTED ID is handed back unchanged - exempt by definition,
+                    # property C08 - so there only the IDs the library chooses itself are looked at: copy() of an entity,
+                    # brush or face asks for "any free ID", and the one it gets is then no ID of its source)
+                    if isinstance(o, (Entity, Solid, Side) if pres else (Entity, Solid, Side, VisGroup, EntityGroup)):
                         out.add((type(o).__name__, o.id))
-                    if isinstance(o, Entity) and o['nodeid', '']:
+                    if not pres and isinstance(o, Entity) and o['nodeid', '']:
                         out.add(('node', o['nodeid']))
                 return out
             reused = ids_of(r_orig) & ids_of(r_copy)
